@@ -39,15 +39,23 @@ def case_stream(rng, tier, small_len=None, gen_n=None, full_len=2, with_layout=T
         yield "seq-full", seq, G.render(seq)
         if seq:
             yield "seq-full+req", pre + seq, G.render(pre + seq)
+    for seq in G.structure_cases():
+        yield "structure", seq, G.render(seq)
     n = small_len or (4 if tier == "quick" else 5)
     keep = 0.12 if tier == "quick" else 0.35
     for seq in G.sequences(G.SMALL_VOCAB, n):
         if len(seq) >= 4 and rng.random() > keep:
             continue
-        if rng.random() < 0.5:
+        r = rng.random()
+        if r < 0.2:
+            seq = G.flip_case(rng, seq)        # identifiers and tags are case-insensitive
+        if r < 0.45:
             yield "seq-small", seq, G.render(seq)
-        else:
+        elif r < 0.75:
             yield "seq-small+req", pre + seq, G.render(pre + seq)
+        else:
+            # only command-owning extensions required: tag / match-type gates stay observable
+            yield "seq-small+partreq", G.PARTIAL_PREAMBLE + seq, G.render(G.PARTIAL_PREAMBLE + seq)
     m = gen_n or (1200 if tier == "quick" else 20000)
     for i in range(m):
         toks, needs = G.gen_script(rng, avoid_optpos=(i % avoid_optpos_ratio != 0))
@@ -56,6 +64,8 @@ def case_stream(rng, tier, small_len=None, gen_n=None, full_len=2, with_layout=T
             yield "layout", toks, G.render_layout(rng, toks)
         if with_mutants:
             for kind, j, mt in G.mutants(rng, toks, 2):
+                yield "mutant-" + kind, mt, G.render(mt)
+            for kind, j, mt in G.structural_mutants(rng, toks, 2):
                 yield "mutant-" + kind, mt, G.render(mt)
 
 
@@ -531,7 +541,7 @@ def check_C07(report, tier, seed, replay=None):
             continue
         for e in sorted(needs):
             rest = needs - {e}
-            toks = G.require_tokens(rng, rest) + body
+            toks = G.require_tokens(rng, rest) + (G.flip_case(rng, body) if rng.random() < 0.5 else body)
             text = G.render(toks)
             impl, mod, p, detail = both(drv, text)
             report.case((text, e), True, {"kind": "removal", "removed": e, "script": text.decode("utf-8", "replace")[:160],
